@@ -343,4 +343,104 @@ theorem fmtF_nonzero (x : Dbl) : ∀ c ∈ fmtF x, c ≠ 0 := by
     · cases neg <;> simp at hc; omega
     · simp at hc; omega
 
+/-! ### `StrtodExact` is satisfiable: the ideal (unrounded) strtod -/
+theorem ten_pow (k : Nat) : 10 ^ k = 2 ^ k * 5 ^ k := by
+  rw [← Nat.mul_pow]
+
+theorem ideal_eqv (neg : Bool) (num k m : Nat) (e : Int) (h : exactValue num k m e) :
+    Dbl.eqv (.fin neg (num / 5 ^ k) (-(k : Int))) (.fin neg m e) := by
+  unfold Dbl.eqv
+  refine ⟨rfl, ?_⟩
+  have h5 : 0 < 5 ^ k := Nat.pow_pos (by decide)
+  unfold exactValue at h
+  by_cases he : 0 ≤ e
+  · rw [if_pos he] at h
+    have hmin : min (-(k : Int)) e = -(k : Int) := by omega
+    rw [hmin]
+    have e1 : (-(k : Int) - -(k : Int)).toNat = 0 := by omega
+    have e2 : (e - -(k : Int)).toNat = e.toNat + k := by omega
+    rw [e1, e2, h, ten_pow, Nat.pow_add, Nat.pow_zero, Nat.mul_one]
+    rw [show m * 2 ^ e.toNat * (2 ^ k * 5 ^ k) = (m * (2 ^ e.toNat * 2 ^ k)) * 5 ^ k by
+      simp only [Nat.mul_assoc]]
+    rw [Nat.mul_div_cancel _ h5]
+  · rw [if_neg he] at h
+    have hj : 0 < 2 ^ (-e).toNat := Nat.pow_pos (by decide)
+    have hk2 : 0 < 2 ^ k := Nat.pow_pos (by decide)
+    rw [ten_pow] at h
+    have hdvd : 5 ^ k ∣ num * 2 ^ (-e).toNat := ⟨m * 2 ^ k, by rw [h]; simp only [Nat.mul_assoc, Nat.mul_comm]⟩
+    have hcop : Nat.Coprime (5 ^ k) (2 ^ (-e).toNat) := Nat.Coprime.pow _ _ (by decide)
+    obtain ⟨q, hq⟩ := Nat.Coprime.dvd_of_dvd_mul_right hcop hdvd
+    rw [hq, Nat.mul_div_cancel_left _ h5]
+    -- q * 2^j = m * 2^k
+    have hqm : q * 2 ^ (-e).toNat = m * 2 ^ k := by
+      have : 5 ^ k * (q * 2 ^ (-e).toNat) = 5 ^ k * (m * 2 ^ k) := by
+        rw [← Nat.mul_assoc, ← hq, h]; simp only [Nat.mul_assoc, Nat.mul_comm]
+      exact Nat.eq_of_mul_eq_mul_left h5 this
+    by_cases hjk : (-e).toNat ≤ k
+    · have hmin : min (-(k : Int)) e = -(k : Int) := by omega
+      rw [hmin]
+      have e1 : (-(k : Int) - -(k : Int)).toNat = 0 := by omega
+      have e2 : (e - -(k : Int)).toNat = k - (-e).toNat := by omega
+      rw [e1, e2, Nat.pow_zero, Nat.mul_one]
+      have : k = (k - (-e).toNat) + (-e).toNat := by omega
+      rw [this, Nat.pow_add, ← Nat.mul_assoc] at hqm
+      have := Nat.eq_of_mul_eq_mul_right hj hqm
+      rw [this]
+    · have hmin : min (-(k : Int)) e = e := by omega
+      rw [hmin]
+      have e1 : (-(k : Int) - e).toNat = (-e).toNat - k := by omega
+      have e2 : (e - e).toNat = 0 := by omega
+      rw [e1, e2, Nat.pow_zero, Nat.mul_one]
+      have : (-e).toNat = ((-e).toNat - k) + k := by omega
+      rw [this, Nat.pow_add, ← Nat.mul_assoc] at hqm
+      have := Nat.eq_of_mul_eq_mul_right hk2 hqm
+      rw [← this]
+
+theorem takeWhile_digits (ip rest : List Nat) (h : ∀ d ∈ ip, isDigit d = true)
+    (hr : ∀ c tl, rest = c :: tl → isDigit c = false) :
+    (ip ++ rest).takeWhile isDigit = ip ∧ (ip ++ rest).dropWhile isDigit = rest := by
+  induction ip with
+  | nil =>
+    cases rest with
+    | nil => exact ⟨rfl, rfl⟩
+    | cons c tl =>
+      have := hr c tl rfl
+      simp [this]
+  | cons d ds ih =>
+    have hd := h d (List.mem_cons_self ..)
+    have := ih (fun x hx => h x (List.mem_cons_of_mem _ hx))
+    simp [hd, this.1, this.2]
+
+theorem strtodIdeal_exact : StrtodExact strtodIdeal := by
+  intro neg ip fp m e hip hne hfp hex _ _ _
+  have hhead : ∃ d ds, ip = d :: ds ∧ d ≠ 45 := by
+    cases ip with
+    | nil => exact absurd rfl hne
+    | cons d ds =>
+      refine ⟨d, ds, rfl, ?_⟩
+      intro h45
+      have := hip d (List.mem_cons_self ..)
+      rw [h45] at this
+      revert this; decide
+  obtain ⟨d, ds, eip, hd45⟩ := hhead
+  have h46 : ∀ c tl, (46 :: fp) = c :: tl → isDigit c = false := by
+    intro c tl h; injection h with h1 _; rw [← h1]; decide
+  have hnil : ∀ c tl, ([] : List Nat) = c :: tl → isDigit c = false := by intro c tl h; cases h
+  have t1 := takeWhile_digits ip (46 :: fp) hip h46
+  have t2 := takeWhile_digits fp [] hfp hnil
+  rw [List.append_nil] at t2
+  have key : strtodIdeal ((if neg then [45] else []) ++ (ip ++ (46 :: fp))) =
+      .fin neg ((ip ++ fp).foldl (fun acc d => acc * 10 + (d - 48)) 0 / 5 ^ fp.length) (-(fp.length : Int)) := by
+    unfold strtodIdeal
+    cases neg with
+    | true =>
+      simp only [if_true, List.cons_append, List.nil_append, List.head?_cons, beq_self_eq_true, List.drop_succ_cons,
+        List.drop_zero, t1.1, t1.2, t2.1]
+    | false =>
+      have hh : ((ip ++ 46 :: fp).head? == some 45) = false := by
+        rw [eip]; simp [hd45]
+      simp only [Bool.false_eq_true, if_false, List.nil_append, hh, t1.1, t1.2, List.drop_succ_cons, List.drop_zero, t2.1]
+  rw [key]
+  exact ideal_eqv neg _ _ m e hex
+
 end Nstd.Codec
